@@ -12,6 +12,7 @@ def sources():
     for d in sorted(glob.glob('/tmp/wt2_out/D*')): yield d, 'C' + os.path.basename(d)[1:], 'w3'
     for d in sorted(glob.glob('/tmp/wt3_out/E*')): yield d, 'C' + os.path.basename(d)[1:], 'w4'
     for d in sorted(glob.glob('/tmp/wt3_out/F*')): yield d, 'C' + os.path.basename(d)[1:], 'w5'
+    for d in sorted(glob.glob('/tmp/wt3_out/G*')): yield d, 'C' + os.path.basename(d)[1:], 'w6'
 SHARD = os.environ.get('SHARD')          # "i/k": only every k-th change, results in seed_matrix.<i>.json (merge with tools/seed_matrix.py --merge)
 if '--merge' in sys.argv:
     for f in sorted(glob.glob('/tmp/scratch/seed_matrix.*.json')): out.update(json.load(open(f)))
